@@ -92,6 +92,7 @@ type Contract struct {
 	Note        string
 	CallAsserts map[string][]*Clause // "callee#n" -> asserted clauses before call
 	CallSets    map[string][]SetDef  // "callee#n" -> ghost assignments after the call
+	Synth       bool                 // synthesised weakest contract (call-site sweep only)
 }
 
 type SetDef struct {
@@ -129,6 +130,7 @@ type ContractSet struct {
 	SpecFns   map[string]*SpecFn
 	SMT       []string // raw SMT prelude blocks
 	Order     []string
+	Global    *Contract // "global" block: call-site clauses applied in every function under contract
 }
 
 func newContractSet() *ContractSet {
@@ -539,7 +541,7 @@ func (lx *lexer) parsePostfix() Expr {
 //   spec name(Sort, ...) Sort
 //   smt { raw smt-lib }
 
-var kwClause = map[string]bool{"func": true, "defines": true, "assumes": true, "requires": true, "ensures": true, "modifies": true, "loop": true, "pred": true,
+var kwClause = map[string]bool{"func": true, "global": true, "defines": true, "assumes": true, "requires": true, "ensures": true, "modifies": true, "loop": true, "pred": true,
 	"ghost": true, "spec": true, "smt": true, "assumed": true, "inline": true, "bounds": true, "pure": true, "let": true, "note": true, "at": true}
 
 var reBlock = regexp.MustCompile(`(?s)/\*@(.*?)\*/`)
@@ -653,6 +655,12 @@ func (cs *ContractSet) parse(src, file string, line0 int) (err error) {
 			cs.Contracts[key] = c
 			cs.Order = append(cs.Order, key)
 			cur = c
+		case "global":
+			// global call-site clauses ("at callee#any assert/set ..."), applied while verifying any function
+			if cs.Global == nil {
+				cs.Global = &Contract{Key: "global", Loops: map[int]*LoopContract{}, CallAsserts: map[string][]*Clause{}, CallSets: map[string][]SetDef{}}
+			}
+			cur = cs.Global
 		case "assumed":
 			cur.Assumed = true
 		case "inline":
